@@ -37,7 +37,7 @@ pub fn filter_f(f: u8, &(k, v): &It) -> bool {
     match f % N_FILTER {
         0 => v % 2 == 0,
         1 => k != 0,
-        2 => (k as i16 + v) % 3 != 0,
+        2 => (k as i16).wrapping_add(v) % 3 != 0,
         3 => v > 1,
         _ => k % 2 == 0,
     }
@@ -55,7 +55,7 @@ pub fn flat_map_f(f: u8, (k, v): It) -> Vec<It> {
         0 => (v.rem_euclid(3)) as usize,
         1 => (k % 2) as usize + 1,
         2 => 2,
-        _ => ((k as i16 + v).rem_euclid(4)) as usize,
+        _ => ((k as i16).wrapping_add(v).rem_euclid(4)) as usize,
     };
     (0..n).map(|i| (nk(k as i32 + i as i32), nv(v as i32 + i as i32 * 2))).collect()
 }
@@ -77,11 +77,11 @@ pub fn fold_init(f: u8) -> i16 {
 pub fn fold_f(f: u8, acc: &mut i16, (k, v): It) {
     match f % N_FOLD {
         0 => *acc = acc.wrapping_add(v).wrapping_add(k as i16),
-        1 => *acc = (*acc).max(v * 4 + k as i16),
+        1 => *acc = (*acc).max(v.wrapping_mul(4).wrapping_add(k as i16)),
         2 => *acc = acc.wrapping_add(1),
-        3 => *acc ^= 1i16.wrapping_shl((v as u32 * 4 + k as u32) % 15),
+        3 => *acc ^= 1i16.wrapping_shl((v as u32).wrapping_mul(4).wrapping_add(k as u32) % 15),
         4 => *acc = acc.wrapping_mul(3).wrapping_add(v).wrapping_add(k as i16 * 7),
-        _ => *acc = acc.wrapping_mul(-5).wrapping_sub(v * 2 + k as i16),
+        _ => *acc = acc.wrapping_mul(-5).wrapping_sub(v.wrapping_mul(2).wrapping_add(k as i16)),
     }
 }
 /// `fold`'s i16 accumulator as an item
@@ -120,7 +120,7 @@ pub fn keyed_f(f: u8, acc: &mut i16, v: i16) {
         1 => *acc = (*acc).max(v),
         2 => *acc = acc.wrapping_add(1),
         3 => *acc = acc.wrapping_mul(3).wrapping_add(v),
-        _ => *acc = acc.wrapping_mul(-2).wrapping_add(v + 1),
+        _ => *acc = acc.wrapping_mul(-2).wrapping_add(v.wrapping_add(1)),
     }
 }
 
@@ -204,6 +204,32 @@ pub fn unzip_f(f: u8, x: It) -> (It, It) {
 /// decay step for feedback cycles: `Some` strictly decreases `v` towards 0, `None` at/below 0.
 pub fn decay_f((k, v): It) -> Option<It> {
     if (1..=64).contains(&v) { Some((k, v / 2)) } else { None }
+}
+
+// ---- references (C25): the value held by a handoff is seen as a slice -------------------------
+pub const N_REF: u8 = 3;
+/// Output of a reading closure: depends on the item and on the value seen.
+pub fn ref_read(f: u8, (k, v): It, seen: &[It]) -> It {
+    // order-insensitive summary of the value seen (a handoff() buffer has no specified order)
+    let s = seen.iter().fold(0i16, |a, e| a.wrapping_add(e.1.wrapping_mul(31)).wrapping_add(e.0 as i16 + 1));
+    match f % N_REF {
+        0 => (k, v.wrapping_add(s)),
+        1 => (nk(k as i32 + seen.len() as i32), s.wrapping_sub(v)),
+        _ => (k, s.wrapping_mul(3).wrapping_add(v)),
+    }
+}
+/// A writing closure: updates the held value in place (item-order sensitive), returns an item
+/// that depends on the value it saw.
+pub fn ref_write(f: u8, (k, v): It, cur: &mut [It]) -> It {
+    let out = ref_read(f, (k, v), cur);
+    for e in cur.iter_mut() {
+        match f % N_REF {
+            0 => e.1 = e.1.wrapping_add(v).wrapping_add(1),
+            1 => e.1 = e.1.wrapping_mul(2).wrapping_sub(v),
+            _ => *e = (nk(e.0 as i32 + k as i32), e.1.wrapping_add(v.wrapping_mul(3))),
+        }
+    }
+    out
 }
 
 /// The enum used by `demux_enum`.
